@@ -249,8 +249,8 @@ def _replay_cross(case):
 def subs(tier: str):
     q = tier == "quick"
     return [
-        Sub("round-trip", check, "hypothesis", strategy=lambda: _case(False), examples=40 if q else 600),
-        Sub("one-field-variants", check, "hypothesis", strategy=lambda: _case(True), examples=60 if q else 900),
-        Sub("collections", check_collection, "hypothesis", strategy=_collection, examples=10 if q else 150),
+        Sub("round-trip", check, "hypothesis", strategy=lambda: _case(False), examples=40 if q else 2000),
+        Sub("one-field-variants", check, "hypothesis", strategy=lambda: _case(True), examples=60 if q else 3000),
+        Sub("collections", check_collection, "hypothesis", strategy=_collection, examples=10 if q else 500),
         Sub("cross-process", _replay_cross, "custom", run=_cross_process(60 if q else 300, ["0", "1", "4242"] if q else ["0", "1", "4242", "random", "99"])),
     ]
